@@ -241,7 +241,7 @@ def rename(text, specs):
     return "\n".join(out) + "\n"
 
 
-def ligand_hetatm(mol2_text, resname="LIG", chain="L", resseq=900):
+def ligand_hetatm(mol2_text, resname="LIG", chain="L", resseq=900, drop_h=False):
     """HETATM records for the atoms of a MOL2 file (names and coordinates as given),
     so that the ligand path (--ligand) has hetero atoms to parameterise."""
     out = []
@@ -256,6 +256,8 @@ def ligand_hetatm(mol2_text, resname="LIG", chain="L", resseq=900):
         w = line.split()
         if len(w) < 6:
             continue
+        if drop_h and (w[5].upper().startswith("H") or w[1].upper().startswith("H")):
+            continue  # the usual case for real PDB entries: ligand without hydrogens
         n += 1
         name = w[1][:4]
         nm = name if len(name) == 4 else " " + name.ljust(3)
@@ -265,9 +267,9 @@ def ligand_hetatm(mol2_text, resname="LIG", chain="L", resseq=900):
     return out
 
 
-def add_ligand(text, mol2_name, resname="LIG"):
+def add_ligand(text, mol2_name, resname="LIG", drop_h=False):
     lines = [l for l in text.splitlines() if l.strip() != "END"]
-    lines += ligand_hetatm(load(mol2_name), resname=resname)
+    lines += ligand_hetatm(load(mol2_name), resname=resname, drop_h=drop_h)
     lines.append("END")
     return "\n".join(lines) + "\n"
 
@@ -365,7 +367,8 @@ def structure_text(cfg):
     if cfg.get("chains"):
         text = split_chains(text, cfg["chains"])
     if cfg.get("lig_het"):
-        text = add_ligand(text, cfg["lig_het"], cfg.get("lig_resname", "LIG"))
+        text = add_ligand(text, cfg["lig_het"], cfg.get("lig_resname", "LIG"),
+                          cfg.get("lig_drop_h", False))
     if cfg.get("rigid"):
         text = rigid(text, cfg["rigid"].get("rot"), cfg["rigid"].get("shift"))
     return text
